@@ -124,3 +124,39 @@ def assignments(variables):
 
 def is_inf(x):
     return isinstance(x, float) and math.isinf(x)
+
+
+def random_spec(seed, nvars, max_dom=3, unary=True, nary=False, connected=True, costkinds=("plain", "plain", "func", "dict")):
+    """a seeded random problem in the spec format of net.build_dcop: a random spanning tree (when ``connected``) plus a few
+    extra binary constraints (cycles -> pseudo-parents), optional unary and ternary constraints, non-identity domains of
+    2..max_dom values, some variables with an own cost.  Used by the sampled native pass on shapes that are too large
+    for exhaustive path exploration."""
+    import random as _r
+    rng = _r.Random(seed * 104729 + nvars * 31 + max_dom)
+    names = ["x%d" % (i + 1) for i in range(nvars)]
+    order = list(names)
+    rng.shuffle(order)
+    pools = [[0, 1, 2], ["a", "b", "c"], [7, 0, 3], ["u", "v", "w"], [5, 2, 9]]
+    vars_ = {}
+    for i, n in enumerate(names):
+        k = rng.randint(2, max_dom)
+        dom = list(pools[i % len(pools)][:k])
+        ck = rng.choice(costkinds)
+        vars_[n] = dom if ck == "plain" else (dom, ck)
+    edges = []
+    for i in range(1, nvars):
+        if connected or rng.random() < 0.75:
+            edges.append([order[i], order[rng.randrange(i)]])
+    for _ in range(rng.randint(0, max(1, nvars // 2))):
+        a, b = rng.sample(names, 2)
+        if [a, b] not in edges and [b, a] not in edges:
+            edges.append([a, b])
+    cons = [list(e) if rng.random() < 0.5 else [e[1], e[0]] for e in edges]
+    if unary:
+        for n in names:
+            if rng.random() < 0.25:
+                cons.append([n])
+    if nary and nvars >= 3 and rng.random() < 0.5:
+        cons.append(rng.sample(names, 3))
+    rng.shuffle(cons)
+    return dict(vars=vars_, cons=cons)
